@@ -693,6 +693,59 @@ fn scenario_endings(w: &mut World, t: Transport, k: u64, rng: &mut Rng) {
         peer_end(p, reset);
     };
     match k {
+        13 if t != Transport::Ws => {
+            // a child process is alive (fork + exec while the connections are open) when the node removes
+            // an outbound and an accepted connection: the sockets must not have been inherited, the peers
+            // must see the close at once
+            let l = TcpListener::bind("127.0.0.1:0").unwrap();
+            let ep = w.connect(t, l.local_addr().unwrap());
+            eps.push(ep);
+            let out_peer = l.accept().ok().map(|x| x.0);
+            let in_peer = TcpStream::connect(addr).ok();
+            w.pump(60);
+            let child = std::process::Command::new("sleep").arg("5").stdin(std::process::Stdio::null()).spawn();
+            if let Ok(mut child) = child {
+                let in_ep = w.accepted.iter().find(|a| in_peer.as_ref().and_then(|p| p.local_addr().ok()) == Some(a.0.addr())).map(|a| a.0);
+                w.remove(ep.resource_id());
+                if let Some(e) = in_ep {
+                    w.remove(e.resource_id());
+                }
+                for (name, peer) in [("the outbound connection", out_peer), ("the accepted connection", in_peer)] {
+                    if let Some(mut p) = peer {
+                        p.set_read_timeout(Some(Duration::from_millis(1000))).ok();
+                        let mut b = [0u8; 64];
+                        let closed = loop {
+                            match p.read(&mut b) {
+                                Ok(0) => break true,
+                                Ok(_) => continue,
+                                Err(e) if e.kind() == std::io::ErrorKind::WouldBlock || e.kind() == std::io::ErrorKind::TimedOut => break false,
+                                Err(_) => break true,
+                            }
+                        };
+                        if !closed {
+                            w.leaks.push(format!("remove() of {} returned but its peer saw no close within 1 s while a child process was alive: the socket was inherited", name));
+                        }
+                    }
+                }
+                let _ = child.kill();
+                let _ = child.wait();
+            }
+            raw_listeners.push(l);
+        }
+        12 => {
+            // data and the end of the stream are queued together; the callback removes the endpoint at its
+            // first Message: remove() answers true and no Disconnected may follow for it
+            w.armed.push(Armed::RemoveSelfOnMessage);
+            if t == Transport::Ws {
+                if let Some(p) = raw_connect(w, t, addr) {
+                    end_now(w, p, 2, false);
+                }
+            }
+            else if let Ok(s) = TcpStream::connect(addr) {
+                end_now(w, RawPeer::Tcp(s), 2, false);
+            }
+            std::thread::sleep(Duration::from_millis(50));
+        }
         11 if t == Transport::Ws => {
             // the peer's Close frame arrives while a local thread is busy sending on the same endpoint (the
             // WebSocket adapter shares one lock between its two directions): the close must still be
@@ -1191,7 +1244,7 @@ fn run_scenarios(out: &mut impl std::io::Write, seed: u64, n: u64, only: Option<
         let mut r = Rng::new(1);
         scenario_conn(&mut w, Transport::Tcp, &mut r);
     }
-    const ENDINGS: u64 = 36; // 12 fixed endings x 3 stream transports, before the random scenarios
+    const ENDINGS: u64 = 42; // 14 fixed endings x 3 stream transports, before the random scenarios
     for i in 0..n + ENDINGS {
         if only.map_or(false, |k| k != i) {
             continue
